@@ -300,7 +300,7 @@ fn hue_pairs(d: &Dom, full: bool) -> Vec<Pair> {
         &[(0.4, 0.7, 0.47, 0.2), (0.5, 0.5, 0.31, 0.31)]
     };
     let h1s = [0.0, 0.5, 30.0, 90.0, 135.0, 179.5, 180.0, 180.5, 225.0, 270.0, 315.0, 359.5];
-    let ds = [0.25, 45.0, 120.0, 179.0, 179.9, 180.1, 181.0, 240.0, 300.0, 359.5];
+    let ds = [0.25, 45.0, 120.0, 179.0, 179.99, 179.999999, 180.000001, 180.01, 181.0, 240.0, 300.0, 359.5];
     for (ci, (l1, l2, k1, k2)) in combos.iter().enumerate() {
         for h1 in h1s {
             for dd in ds {
@@ -502,7 +502,7 @@ fn main() {
     let luv = Dom { lmax: 100.0, abmax: 150.0 };
     let okl = Dom { lmax: 1.0, abmax: 0.4 };
     let ucs = Dom { lmax: 100.0, abmax: 50.0 };
-    let (n_rand, n_near) = if quick { (110, 40) } else { (5000, 1200) };
+    let (n_rand, n_near) = if quick { (110, 40) } else { (4000, 1000) };
 
     // L*a*b* domain: Lab and Lch, all measures including CIEDE2000
     let mut labp = arg("--pairs").map(|p| mc_pairs(&p)).unwrap_or_default();
@@ -521,7 +521,7 @@ fn main() {
         }
     }
     // L*u*v*, Oklab, CAM16-UCS: the cheap measures on more pairs
-    let (m_rand, m_near) = if quick { (70, 32) } else { (8000, 2000) };
+    let (m_rand, m_near) = if quick { (70, 32) } else { (4000, 1000) };
     for (ty, d) in [("luv", &luv), ("oklab", &okl), ("jab", &ucs)] {
         let mut ps = general_pairs(d, &mut r, m_rand, m_near, if quick { 16 } else { 81 });
         if ty == "jab" || !quick {
@@ -542,7 +542,7 @@ fn main() {
         }
     }
     // RGB and luma: Euclidean distance and contrast
-    let rp = rgb_pairs(&mut r, if quick { 60 } else { 6000 });
+    let rp = rgb_pairs(&mut r, if quick { 60 } else { 3000 });
     for p in &rp {
         for t in ["f64", "f32"] {
             for ty in ["srgb", "linsrgb"] {
